@@ -5,6 +5,7 @@ R11.1  registry read-modify-write-union: the dict loaded from the registry file 
        the registry key is the client's full dotted package name
 R11.2  the "shared core" predicate holds for every layout (core outside the client package at any depth, or embedded in it and re-used later)
        (the predicate's AST is evaluated over symbolic directory layouts of depth 1..4 by a path-algebra interpreter)
+R11.6  the generator rescues / seeds the registry under the file name the emitter reads and writes (writer / reader agreement)
 R11.5  a removal of the output package that precedes the exception emitter carries the registry of a contained core over (read before, written back after)
 R11.4  the import header of the regenerated alias file covers every base class the union of codes can need
 R11.3  core emission is additive: the core/exception emitters never delete, and always (re)write what they own
@@ -576,6 +577,7 @@ def run(repo: Repo, rep: Report, tier: str) -> None:
                 rep.ok("R11.2", subk, "predicate is true for every client depth 1..3", anchor_fn.loc())
 
     rule_cleanup_keeps_registry(repo, rep, "R11.5")
+    rule_registry_file_name_agrees(repo, rep, "R11.6")
     # ---------------------------------------------------------------- R11.3 additive
     for spec in (f"{EE}:ExceptionsEmitter.emit", f"{EE}:ExceptionsEmitter._update_registry", "emitters.core_emitter:CoreEmitter.emit"):
         fn = repo.func(spec)
@@ -699,3 +701,48 @@ def rule_cleanup_keeps_registry(repo: Repo, rep, rule: str = "R11.5") -> None:
                           "exception_aliases.py", gen.loc(r.ast))
     if not n_armed:
         rep.ok(rule, f"{gen.module.relpath}:generate clean-up", "no directory removal precedes the exception emitter", gen.loc())
+
+
+# ------------------------------------------------------------------------------------------------ R11.6 one name for the registry file
+def _registry_names(tree: ast.AST, mod=None) -> List[Tuple[str, ast.AST]]:
+    """String constants that name the exception registry file (`*registry*.json`), docstrings excepted; module-level constants are followed."""
+    doc = set()
+    for n in ast.walk(tree):
+        if isinstance(n, (ast.Module, ast.ClassDef, ast.FunctionDef, ast.AsyncFunctionDef)) and n.body and isinstance(n.body[0], ast.Expr) \
+                and isinstance(n.body[0].value, ast.Constant) and isinstance(n.body[0].value.value, str):
+            doc.add(id(n.body[0].value))
+    out = []
+    for n in ast.walk(tree):
+        if isinstance(n, ast.Constant) and isinstance(n.value, str) and id(n) not in doc and "registry" in n.value and n.value.endswith(".json") and "/" not in n.value and " " not in n.value:
+            out.append((n.value, n))
+    return out
+
+
+def rule_registry_file_name_agrees(repo: Repo, rep, rule: str = "R11.6") -> None:
+    """The exceptions emitter keeps the clients' status codes in a registry file inside the core; the generator rescues that file around the
+    removal of the output package and seeds the compare-only tree with it.  Both sides spell the file name out: they must spell the same
+    name, otherwise the rescue finds nothing (its `is_file()` guard is silently false), the registry of an embedded core is deleted with the
+    package and the other clients' exception classes disappear."""
+    em = repo.module("emitters.exceptions_emitter")
+    gm = repo.module("generator.client_generator")
+    en = _registry_names(em.tree)
+    gn = _registry_names(gm.tree)
+    rep.count(f"{rule}:emitter_mentions", len(en))
+    rep.count(f"{rule}:generator_mentions", len(gn))
+    rep.require(len(en) >= 1, f"{rule}: the exceptions emitter no longer names its registry file with a string constant (anchor)")
+    rep.require(len(gn) >= 2, f"{rule}: the generator no longer names the registry file it rescues / seeds (anchor, {len(gn)} mention(s))")
+    if not en or not gn:
+        return
+    names_e = sorted({v for v, _ in en})
+    sub = f"{gm.relpath} / {em.relpath} name of the exception registry file"
+    other = [(v, n) for v, n in gn if v not in names_e]
+    if len(names_e) > 1:
+        rep.violation(rule, sub, f"registry-file-name|emitter-uses-several|{names_e}", f"the emitter itself uses several registry file names: {names_e}", f"{em.relpath}:{en[0][1].lineno}")
+    elif other:
+        v, n = other[0]
+        rep.violation(rule, sub, f"registry-file-name|{names_e[0]}|{v}",
+                      f"the emitter reads and writes `{names_e[0]}`, the generator rescues / seeds `{v}`: the rescue around `rmtree(out_dir)` never finds the file, a forced "
+                      "regeneration of the client that hosts the core deletes the registry, and the exception classes of the other clients are no longer generated "
+                      "(their endpoint modules fail to import)", f"{gm.relpath}:{n.lineno}")
+    else:
+        rep.ok(rule, sub, f"`{names_e[0]}` on both sides ({len(en)} + {len(gn)} mentions)", f"{em.relpath}:{en[0][1].lineno}")
